@@ -16,6 +16,7 @@ import (
 
 func init() {
 	verifRegister("verifC11Notifier", verifC11Notifier)
+	verifRegister("verifC11Reselect", verifC11Reselect)
 	verifRegister("verifC11GatherVsRestart", verifC11GatherVsRestart)
 	verifRegister("verifC11RestartDuringCycle", verifC11RestartDuringCycle)
 	verifRegister("verifC11RestartDuringCycleWithCandidate", verifC11RestartDuringCycleWithCandidate)
@@ -271,5 +272,47 @@ func verifC11RestartDuringCycleWithCandidate() {
 		}
 	}
 	a.loop.Close()
+	verifReach("done")
+}
+
+// The same value may be notified again after another one (a pair re-selected
+// after a switch, a state re-entered): every enqueued event is delivered, in
+// order, also when the handler is slow and the repeated value arrives while
+// earlier events are still queued; and a GracefulClose that follows a plain
+// Close still waits for the running handler.
+func verifC11Reselect() {
+	stream := verifChoice(2) // 0: connection states, 1: selected pairs
+	var inHandler atomic.Int32
+	var mu sync.Mutex
+	var got []int
+	handle := func(v int) {
+		inHandler.Add(1)
+		verifYield()
+		mu.Lock()
+		got = append(got, v)
+		mu.Unlock()
+		inHandler.Add(-1)
+	}
+	pairs := []*CandidatePair{{id: 0}, {id: 1}}
+	h := &handlerNotifier{done: make(chan struct{})}
+	h.connectionStateFunc = func(s ConnectionState) { handle(int(s) - 1) }
+	h.candidatePairFunc = func(p *CandidatePair) { handle(int(p.id)) }
+	enqueue := func(i int) {
+		if stream == 0 {
+			h.EnqueueConnectionState(ConnectionState(i + 1))
+		} else {
+			h.EnqueueSelectedCandidatePair(pairs[i])
+		}
+	}
+	var wg sync.WaitGroup
+	wg.Add(1)
+	go func() { defer wg.Done(); enqueue(0); enqueue(1); enqueue(0) }() // A, B, A
+	wg.Wait()
+	h.Close(false) // a plain close first ...
+	h.Close(true)  // ... the graceful one must still wait for the drainer
+	verifAssert(inHandler.Load() == 0, "GracefulClose-after-Close-still-waits-for-the-running-handler")
+	mu.Lock()
+	verifAssert(len(got) == 3 && got[0] == 0 && got[1] == 1 && got[2] == 0, "a-value-notified-again-after-another-one-is-delivered-again,in-order")
+	mu.Unlock()
 	verifReach("done")
 }
